@@ -51,10 +51,111 @@ func C14depth(p *load.Program, run *report.Run) {
 				}
 			}
 		}
+		// recursion through one helper of the package: fn -> g -> fn.  The depth travels through g: fn hands
+		// g its depth parameter (or that plus a constant), g hands it back plus a constant
+		type viaT struct {
+			out  *ssa.Call // fn's call of g
+			back *ssa.Call // g's call of fn
+		}
+		var via []viaT
 		if len(rec) == 0 {
+			for _, b := range fn.Blocks {
+				for _, ins := range b.Instrs {
+					c, ok := ins.(*ssa.Call)
+					if !ok {
+						continue
+					}
+					g := c.Call.StaticCallee()
+					if g == nil || g == fn || g.Blocks == nil || g.Pkg != fn.Pkg {
+						continue
+					}
+					for _, gb := range g.Blocks {
+						for _, gi := range gb.Instrs {
+							if bc, ok := gi.(*ssa.Call); ok && bc.Call.StaticCallee() == fn {
+								via = append(via, viaT{c, bc})
+							}
+						}
+					}
+				}
+			}
+		}
+		if len(rec) == 0 && len(via) == 0 {
 			continue
 		}
 		run.Count("recursive-parser-functions", 1)
+		if len(rec) == 0 {
+			name := strings.ReplaceAll(fn.RelString(nil), load.Module+"/", "")
+			okVia := false
+			for pi, prm := range fn.Params {
+				if b, isB := prm.Type().Underlying().(*types.Basic); !isB || b.Info()&types.IsInteger == 0 {
+					continue
+				}
+				compared := false
+				for _, r := range *prm.Referrers() {
+					if bo, isBO := r.(*ssa.BinOp); isBO && (bo.Op == token.GTR || bo.Op == token.GEQ || bo.Op == token.LSS || bo.Op == token.LEQ) {
+						_, c1 := bo.Y.(*ssa.Const)
+						_, c2 := bo.X.(*ssa.Const)
+						if c1 && bo.X == ssa.Value(prm) || c2 && bo.Y == ssa.Value(prm) {
+							compared = true
+						}
+					}
+				}
+				cmpConst := func(x *ssa.Parameter) bool {
+					if x.Referrers() == nil {
+						return false
+					}
+					for _, r := range *x.Referrers() {
+						if bo, isBO := r.(*ssa.BinOp); isBO && (bo.Op == token.GTR || bo.Op == token.GEQ || bo.Op == token.LSS || bo.Op == token.LEQ) {
+							_, c1 := bo.Y.(*ssa.Const)
+							_, c2 := bo.X.(*ssa.Const)
+							if c1 && bo.X == ssa.Value(x) || c2 && bo.Y == ssa.Value(x) {
+								return true
+							}
+						}
+					}
+					return false
+				}
+				plus := func(v, base ssa.Value) (int64, bool) {
+					if v == base {
+						return 0, true
+					}
+					if bo, ok := v.(*ssa.BinOp); ok && bo.Op == token.ADD && bo.X == base {
+						if k, ok := bo.Y.(*ssa.Const); ok && k.Value != nil {
+							return k.Int64(), true
+						}
+					}
+					return 0, false
+				}
+				all := true
+				for _, v := range via {
+					g := v.out.Call.StaticCallee()
+					total, found := int64(0), false
+					for gi, a := range v.out.Call.Args {
+						k1, ok1 := plus(a, prm)
+						if !ok1 || gi >= len(g.Params) || pi >= len(v.back.Call.Args) {
+							continue
+						}
+						k2, ok2 := plus(v.back.Call.Args[pi], g.Params[gi])
+						// the bound may sit in either function of the cycle
+						if ok2 && k1 >= 0 && k2 >= 0 && (compared || cmpConst(g.Params[gi])) {
+							total, found = k1+k2, true
+						}
+					}
+					if !found || total <= 0 {
+						all = false
+					}
+				}
+				if all {
+					okVia = true
+				}
+			}
+			if okVia {
+				run.OK("recursive-parsers-depth-bounded", name, p.Rel(fn.Pos()), "recursion through a helper: the depth parameter is compared with a constant and grows around the cycle")
+			} else {
+				run.Violate("recursive-parsers-depth-bounded", name, p.Rel(fn.Pos()), "the function calls itself through a helper without a depth that is compared with a constant and grows around the cycle: nesting in the input is unbounded", nil)
+			}
+			continue
+		}
 		name := strings.ReplaceAll(fn.RelString(nil), load.Module+"/", "")
 		ok := false
 		for pi, prm := range fn.Params {
